@@ -626,4 +626,27 @@ one axis (a limit with the node ON it must be given explicitly, the others are r
 def reFromGrid (p : Part1) (bl br : Bool) : Option Part1 :=
   fromGridAxis p.n p.c (if bl then some p.lo else none) (if br then some p.hi else none)
 
+/-! ### the set below the partition (round 5): `IntervalProd.volume`, `IntervalProd.corners`, n-d cell
+volumes -/
+
+/-- `IntervalProd.volume` = `measure(ndim=self.ndim)`: the product of the extents of all axes (`0.0` as
+soon as one axis is degenerate; both special cases of `measure` return that product's value). -/
+def setVolume (P : Part) : Rat := prodList (P.map fun p => p.hi - p.lo)
+
+/-- `IntervalProd.corners()` (order `'C'`): `RectGrid(*minmax_vecs).points()` with `(min, max)` on a
+non-degenerate axis and the single value `min` on a degenerate one. -/
+def setCorners : Part → List (List Rat)
+  | [] => [[]]
+  | p :: rest =>
+      (if p.lo = p.hi then [p.lo] else [p.lo, p.hi]).flatMap fun x => (setCorners rest).map fun w => x :: w
+
+/-- The volumes of all n-d cells (C order): outer product of the `cell_sizes_vecs`. -/
+def ndCellVolumes : Part → List Rat
+  | [] => [1]
+  | p :: rest => ((List.range p.n).map p.cellSize).flatMap fun x => (ndCellVolumes rest).map fun w => x * w
+
+def sumList : List Rat → Rat
+  | [] => 0
+  | x :: r => x + sumList r
+
 end OdlModel.Partition
